@@ -25,7 +25,8 @@
 From Coq Require Import ZArith List Bool Lia.
 From Low Require Import Lib.MachInt Lib.BitSeq Model.SectionWriter Spec.SectionWriterSpec Run.C18
   Model.MemFile Model.SectionReader Spec.SectionReaderSpec
-  Proofs.SectionWriterProofs Proofs.SectionWriterCalls Proofs.MemFileProofs Proofs.SectionIOProofs.
+  Proofs.SectionWriterProofs Proofs.SectionWriterCalls Proofs.MemFileProofs Proofs.SectionIOProofs
+  Proofs.SectionStreamProofs.
 Import ListNotations.
 Open Scope Z_scope.
 
@@ -338,6 +339,23 @@ Theorem C18_write_read_round_trip : forall o init bufs,
     firstn (Z.to_nat (zsum lens)) (concat bufs ++ skipn (Z.to_nat (o + zlen (concat bufs))) init).
 Proof. exact at_to_writer_reader_round_trip. Qed.
 Print Assumptions C18_write_read_round_trip.
+
+(** NewSectionWriter "stops with io.ErrShortWrite after n bytes": a plain stream of Writes through
+    a section (o, n) over a file that accepts everything leaves exactly the first n bytes of the
+    stream at o, and the counts returned add up to min(n, length of the stream). *)
+Theorem C18_stream_truncates : forall o n init bufs,
+  0 <= o /\ 0 <= n /\ o + n <= 2^63 - 1 ->
+  let outs := run (NewSectionWriter o n) [] (map CWrite bufs) in
+  file_after init outs = write_at init o (firstn (Z.to_nat n) (concat bufs)) /\
+  zsum (map ret_cnt outs) = Z.min n (zlen (concat bufs)).
+Proof. exact section_stream_truncates. Qed.
+Print Assumptions C18_stream_truncates.
+
+Example C18_stream_nonvacuous :
+  file_after [9;9;9;9;9;9;9] (run (NewSectionWriter 1 4) [] (map CWrite [[1;2;3]; [4;5;6]; [7]])) = [9;1;2;3;4;9;9] /\
+  map rets (run (NewSectionWriter 1 4) [] (map CWrite [[1;2;3]; [4;5;6]; [7]])) = [[3; 0]; [1; 1]; [0; 1]] /\
+  write_at [9;9;9;9;9;9;9] 1 (firstn (Z.to_nat 4) (concat [[1;2;3]; [4;5;6]; [7]])) = [9;1;2;3;4;9;9].
+Proof. vm_compute. repeat split; reflexivity. Qed.
 
 (** non-vacuity of the widening: a 6-byte file, a section (2, 3) written with a truncated Write
     after a short faulty one; bytes 0,1 and 5 keep their value; then a stream written at offset 4
